@@ -845,9 +845,23 @@ def register_all(M):
     def m_str_find(it, args, callee):
         el = elems_of(args[0])
         off = 0
+        pat = args[1]
+        dp = deref(pat) if isinstance(pat, Ref) else pat
+        callable_pat = isinstance(dp, FnItem) or (isinstance(dp, Agg) and dp.kind.startswith("closure:")) or callable(dp)
+        if isinstance(dp, (Str, SString)) and len(dp.elems) != 1:
+            raise Unsupported("str::find with a string pattern")
         for c in el:
-            r = it.call_value(args[1], [c])
-            if it.st.branch(r):
+            if callable_pat:
+                hit = it.st.branch(it.call_value(pat, [c]))
+            elif isinstance(dp, (Str, SString)):
+                hit = it.st.branch(char_eq(c, dp.elems[0]))
+            elif isinstance(dp, (Slice, SVec)) or (isinstance(dp, Agg) and dp.kind == "array"):
+                sl = slice_of(dp)
+                alts = [char_eq(c, sl.items[k]) for k in range(sl.lo, sl.hi)]
+                hit = True if any(a is True for a in alts) else (it.st.branch(simp(z3.Or([a for a in alts if a is not False]))) if any(a is not False for a in alts) else False)
+            else:
+                hit = it.st.branch(char_eq(c, dp))
+            if hit:
                 return some(off)
             off = add_vals(off, width_of(c))
         return none()
